@@ -134,6 +134,45 @@ def run(ctx):
                         ctx.violation("mcmc-model-of-mislabelled-data", "the model built by setup_mcmc gives survey epochs another "
                                       "offset/trend than the correctly labelled union (relative deviation %.3g; poly_trend=%d, "
                                       "%d surveys)" % (dev, poly, ns), dict(desc, dspec=dspec, ps=ps))
+            # ---- the same observations split into surveys at another boundary, on the SAME sampler object: nothing remembered
+            # from the first call (labels, design matrix) may answer the second
+            if chrono and ns <= 4 and i % 3 == 1 and not ties:
+                ks = [k for k in range(ns - 1) if len(dspec["surveys"][k]["t"]) >= 2]
+                if ks:
+                    import copy
+                    k = int(ks[int(rng.integers(0, len(ks)))])
+                    d2 = copy.deepcopy(dspec)
+                    a, b = d2["surveys"][k], d2["surveys"][k + 1]
+                    j = int(np.argmax(a["t"]))                     # the last epoch of survey k joins survey k+1
+                    b["t"].append(a["t"].pop(j))
+                    b["rv"].append(gen.conv(a["rv"].pop(j), a["unit"], b["unit"]))
+                    b["err"].append(gen.conv(a["err"].pop(j), a.get("err_unit", a["unit"]), b.get("err_unit", b["unit"])))
+                    jk = TheJoker(prior)
+                    first = np.asarray(jk.marginal_ln_likelihood(data, samples, in_memory=True))
+                    second = np.asarray(jk.marginal_ln_likelihood(gen.build_data(d2), samples, in_memory=True))
+                    M.drain()
+                    a0 = assignments[0] if dspec["form"] == "list" else None
+                    cands = [a0] if a0 is not None else assignments
+                    okc = False
+                    worst2 = None
+                    for a_ in cands:
+                        lin2 = gen.linear_problem(d2, ps, a_)
+                        allok = True
+                        for r in range(len(second)):
+                            z = oracle.z_column(lin2, rows["P"][r], rows["e"][r], rows["omega"][r], rows["M0"][r])
+                            ref = oracle.marginal(lin2, z, rows["P"][r], rows["e"][r], s_seen[r], want_post=False)
+                            if ref["tol"] <= 1e-4 and not (abs(second[r] - ref["ll"]) <= ref["tol"]):
+                                allok = False
+                                worst2 = (r, float(second[r]), ref["ll"])
+                                break
+                        okc |= allok
+                    ctx.evaluations += 1
+                    ctx.distinct.add(repr(("resplit-second-call",) + cls))
+                    if not okc:
+                        ctx.violation("second-call-uses-first-call-labels", "the same observations split at another survey boundary, "
+                                      "evaluated by the same TheJoker: values are not those of the new labelling (row %s: %.10g vs "
+                                      "%.10g; %d of %d equal the first call's)" % (worst2 + (int(np.sum(second == first)), len(second))),
+                                      dict(desc, moved_from_survey=k))
             if i % 60 == 0:
                 ctx.sample(dict(desc, ll_head=ll[:3]))
         except Exception as e:
